@@ -60,7 +60,9 @@ def rules(model: Model, tier: str) -> List[RuleResult]:
     HF = RuleResult(PROP, "C02-HF", "Hermitian flag of composed operators (a wrong True makes A.H the operator itself in the adjoint solve)", min_instances=4)
     linopalg.hermitian_flags(model, HF)
     _hy = ac.hygiene_rules(model, ac.get_fncls(model, 'solve_torchfcn'), PROP, min_copies=2, min_opt=2)
-    return [R1, R2, R3, R4, R5, R6, H, S, *_hy, ADJ, STL, HF]
+    from ..rules import substitution as _subst
+    _sub = _subst.rules(model, PROP, tier)
+    return [R1, R2, R3, R4, R5, R6, H, S, *_hy, ADJ, STL, HF, *_sub]
 
 
 def _backward_group_order(fc, R6: RuleResult):
